@@ -67,7 +67,7 @@ def newObj (d : Dump) (p pos k : Nat) (name : Option String) (skip : Nat) : Obj 
   let ml := miscLevel d
   { id := pos, type := tMISC, depth := -7, lidx := k, osidx := -1, gp := maxGp d + 1 + skip, parent := (p : Int),
     rank := ((d.objs[p]?).map (·.miscarity)).getD 0, arity := 0, marity := 0, ioarity := 0, miscarity := 0,
-    nextSib := -1, prevSib := lastId d p,
+    nextSib := -1, prevSib := shI pos (lastId d p),
     nextCousin := ((ml[k]?).map (shI pos)).getD (-1),
     prevCousin := if k = 0 then -1 else ((ml[k - 1]?).map (shI pos)).getD (-2),
     firstChild := -1, lastChild := -1, memFirst := -1, ioFirst := -1, miscFirst := -1, symm := 0,
